@@ -76,56 +76,6 @@ theorem buf_dcClosed (sid : Nat) : Pres bufSpec (dcClosed sid) := by
   unfold dcClosed; pres
 macro_rules | `(tactic| pres_leaf) => `(tactic| exact buf_dcClosed _)
 
-/-- the accounting holds except for channel object `i` (whose queue entries were just dropped) -/
-def BufInvX (i : Nat) (e : Ep) : Prop :=
-  (∀ x ∈ e.dcQueue, x.1 < e.chans.length) ∧
-  (∀ (j : Nat) c, j ≠ i → e.chans[j]? = some c → c.ready ≠ 3 → c.buffered = qsum e.dcQueue j)
-
-theorem wp_setReady3_X {s : St} {i : Nat} (hX : BufInvX i s.1) :
-    WP (setReady i 3) (fun _ s' => BufInv s'.1) s := by
-  unfold setReady
-  wp_simp
-  have hkeep : ∀ c, s.1.chans[i]? = some c → c.ready = 3 → BufInv s.1 := by
-    intro c hc h3
-    refine ⟨hX.1, ?_⟩
-    intro j x hx hx3
-    by_cases hj : j = i
-    · subst hj; rw [hc] at hx; cases hx; exact absurd h3 hx3
-    · exact hX.2 j x hj hx hx3
-  cases hc : s.1.chans[i]? with
-  | none =>
-    simp only
-    refine ⟨hX.1, ?_⟩
-    intro j x hx hx3
-    by_cases hj : j = i
-    · subst hj; rw [hc] at hx; cases hx
-    · exact hX.2 j x hj hx hx3
-  | some c =>
-    simp only
-    have hlt : i < s.1.chans.length := (List.getElem?_eq_some_iff.1 hc).1
-    have key : BufInv { s.1 with chans := s.1.chans.set i { c with ready := 3 } } := by
-      refine ⟨by simpa using hX.1, ?_⟩
-      intro j x hx hx3
-      simp only at hx
-      by_cases hj : i = j
-      · subst hj
-        rw [List.getElem?_set_self hlt] at hx; cases hx
-        exact absurd rfl hx3
-      · rw [List.getElem?_set_ne hj] at hx
-        exact hX.2 j x (Ne.symm hj) hx hx3
-    split
-    · wp_simp
-      split
-      · split
-        · wp_simp; exact key
-        · split
-          · wp_simp; exact key
-          · wp_simp; exact key
-      · wp_simp; exact key
-    · rename_i h3
-      wp_simp
-      exact hkeep c hc (by simpa using h3)
-
 theorem buf_dcClose (i : Nat) : Pres bufSpec (dcClose i) := by
   apply Pres.intro; intro s hI
   unfold dcClose
